@@ -191,6 +191,13 @@ class SV:
             a, ot = z3.ToReal(a), z3.ToReal(ot)
         return SV(a / ot)
 
+    def __rtruediv__(s, o):
+        ot = s._o(o)
+        a = s._s(ot)
+        if a.sort() != z3.RealSort():
+            a, ot = z3.ToReal(a), z3.ToReal(ot)
+        return SV(ot / a)
+
     def __neg__(s):
         return SV(-s.t)
 
